@@ -243,3 +243,36 @@ func ZZ_C19_log_accuracies_apart_unequal_X() {
 	zzvCover("pair")
 	zzvAssert("accuracies-0.1%-apart-not-equal", !m1.Equals(m2))
 }
+
+// round 2: SEQUENCES of decodes. Two mappings of the same kind and the same gamma but different offsets
+// (and the reverse: same offset, different gamma) are encoded one after the other and decoded in sequence:
+// each decode returns its own mapping, whatever was decoded before.
+func ZZ_C19_binary_roundtrip_sequence() {
+	zzvBound("decode sequences", "two mappings of one kind (three kinds) sharing gamma or offset bit-for-bit, all finite gamma > 1 and offsets; decoded in sequence from one buffer")
+	kind := zzvChoose("kind", 3)
+	g, off := zzGammaOffset()
+	g2, off2 := zzGammaOffset()
+	if zzvChoose("shared", 2) == 0 {
+		g2 = g
+	} else {
+		off2 = off
+	}
+	ma, mb := zzMake(kind, g, off), zzMake(kind, g2, off2)
+	b := []byte{}
+	ma.Encode(&b)
+	mb.Encode(&b)
+	zzvCover("built")
+	rest := b
+	for k, want := range []IndexMapping{ma, mb} {
+		flag, err := enc.DecodeFlag(&rest)
+		zzvAssert("flag-ok", err == nil && flag.Type() == enc.FlagTypeIndexMapping)
+		got, err := Decode(&rest, flag)
+		zzvAssert("decode-ok", err == nil)
+		k1, f1 := zzFieldsOf(want)
+		k2, f2 := zzFieldsOf(got)
+		zzvAssert("same-kind", k1 == k2 && k1 == kind)
+		zzvAssert("bit-identical-parameters-and-derived-fields-in-sequence", zzSameFields(f1, f2))
+		_ = k
+	}
+	zzvAssert("all-consumed", len(rest) == 0)
+}
